@@ -59,6 +59,10 @@ def check_list(ctx, L, det):
             ok, txt = ctx.call(fmt, L, indent=ind, clause='format_triples')
             if not ok:
                 continue
+            from penman.graph import Triple
+            ok_g, txt_g = ctx.call(fmt, (Triple(*t) for t in L), indent=ind, clause='format_triples(generator)')
+            if ok_g and txt_g != txt:
+                ctx.fail('format_triples:generator-of-Triples-differs', detail=dict(det, text=txt[:200], other=txt_g[:200]))
             ok, back = ctx.call(prs, txt, clause='parse_triples')
             if ok and back != want:
                 ctx.fail('parse_triples(format_triples(L))!=L', mech=f'indent={ind}',
